@@ -203,6 +203,8 @@ func main() {
 	switch os.Args[1] {
 	case "check":
 		os.Exit(cmdCheck(os.Args[2:]))
+	case "native":
+		os.Exit(cmdNative(os.Args[2:]))
 	default:
 		fmt.Fprintln(os.Stderr, "unknown command", os.Args[1])
 		os.Exit(2)
@@ -657,4 +659,50 @@ func writeEvidence(pc *PropConfig, tier string, seed int, reports []*HarnessRepo
 	os.MkdirAll(evDir, 0755)
 	b, _ := json.MarshalIndent(ev, "", " ")
 	os.WriteFile(filepath.Join(evDir, pc.Property+".json"), b, 0644)
+}
+
+// cmdNative runs one harness natively on the inputs of a values file (debugging aid).
+func cmdNative(args []string) int {
+	fs := flag.NewFlagSet("native", flag.ExitOnError)
+	prop := fs.String("prop", "", "property id")
+	only := fs.String("harness", "", "harness name")
+	valFile := fs.String("values", "", "values.json / disagreement file")
+	fs.Parse(args)
+	var pc PropConfig
+	b, err := os.ReadFile(filepath.Join(verifDir, "harness/config", *prop+".json"))
+	if err != nil || json.Unmarshal(b, &pc) != nil {
+		fmt.Fprintln(os.Stderr, "config:", err)
+		return 2
+	}
+	for _, h := range pc.Harnesses {
+		if h.Name != *only {
+			continue
+		}
+		_, files, err := buildOverlay([]string{h.Pkg})
+		if err != nil {
+			fmt.Fprintln(os.Stderr, err)
+			return 2
+		}
+		sb := buildSampleBinary(filepath.Join(replayRoot, *prop), h.Pkg, []string{h.Func}, files)
+		defer os.RemoveAll(sb.dir)
+		if sb.err != "" {
+			fmt.Fprintln(os.Stderr, sb.err)
+			return 2
+		}
+		var doc struct {
+			Values map[string]uint64 `json:"values"`
+			Params map[string]int    `json:"params"`
+		}
+		vb, _ := os.ReadFile(*valFile)
+		json.Unmarshal(vb, &doc)
+		params := doc.Params
+		if params == nil && h.Quick != nil {
+			params = h.Quick.Params
+		}
+		_, _, out := runSample(sb, h.Pkg, h.Func, doc.Values, params, 0)
+		fmt.Print(out)
+		return 0
+	}
+	fmt.Fprintln(os.Stderr, "no such harness")
+	return 2
 }
